@@ -138,7 +138,11 @@ impl InnerCipherConfig {
     pub(crate) fn get_cipher(&self, key: &[u8]) -> Result<Box<dyn ciphers::Cipher>, CryptographyError> {
         match self {
             InnerCipherConfig::Plain => Ok(Box::new(ciphers::PlainCipher::new(key)?)),
-            InnerCipherConfig::Salsa20 => Ok(Box::new(ciphers::Salsa20Cipher::new(key)?)),
+            InnerCipherConfig::Salsa20 => {
+                // KeePass keys Salsa20 with the SHA-256 of the stream key stored in the file (KDBX3 and KDBX4 alike)
+                let key = crate::crypt::calculate_sha256(&[key])?;
+                Ok(Box::new(ciphers::Salsa20Cipher::new(&key)?))
+            }
             InnerCipherConfig::ChaCha20 => Ok(Box::new(ciphers::ChaCha20Cipher::new(key)?)),
         }
     }
